@@ -130,4 +130,15 @@ PROPS = {
         "assumes": ["a database that never learnt a page size cannot be dropped (Header.Validate rejects page size 0): documented precondition"],
         "trusted_base": ["Model/PageDB.v op_drop/op_apply/op_open; tie = cases_c15_*.v"],
     },
+    "C16": {
+        "gen": ["ConstsGen.v"], "props_file": "Props/C16.v", "coq_targets": ["Props/C16.v"],
+        "level_text": "Proof: on the model a successful import is exactly one new transaction chained to the previous position whose application makes the database (hence an export, WAL bookkeeping being empty) return every imported page, the lock page excepted; an import that cannot be applied, or on a replica, returns the node state unchanged; export returns the committed image (last committed WAL version, else database page) with the position; the chain is kept (Props/C16.v). "
+                      "Tie: 38+ cases (target absent / dropped / populated rollback / WAL with un-checkpointed commits; image of same or different page size, 1-260 pages, rollback or WAL header; truncated, one byte short, garbage, short header, empty) through the real /import and /export endpoints on a loopback primary with a replica: export bytes vs imported bytes (counters reset), replica image, chain, a follow-up transaction, and for every failed import: position, log, export bytes unchanged, no Exit, a copy of the data directory reopens.",
+        "level_note": "Trusted: Coq kernel, cluster harness, ltx library. Modelled not verified: db.go text. The model is of the REPAIRED Import (see KNOWN_FINDINGS.txt F5/F6/F16); the change-counter reset is checked on the bytes by the harness only.",
+        "technique": "Coq proof (apply_file, import exactness, failure atomicity) + vm_compute correspondence + endpoint oracle with reopen",
+        "rule": "enumerated matrix target x image x defect class (38 quick, 62 thorough); distinct = case parameters; non-trivial = an import whose outcome was compared (bytes for successes, unchanged state + reopen for failures)",
+        "explanation": "Theorems for all states and images; the matrix ties them to the endpoints.",
+        "assumes": ["LiteFS does not validate the integrity of the imported database beyond its header and length (documented upstream)"],
+        "trusted_base": ["Model/PageDB.v op_import/op_export; tie = cases_c16_*.v"],
+    },
 }
